@@ -1,4 +1,5 @@
 import MpVerif.C02.ModelCheck
+import MpVerif.C02.LemmasSites
 /-!
 # C02 lemmas: an accepted header declares an index space that fits `int`
 
@@ -55,8 +56,9 @@ theorem tReadUIntAcc_spec (acc : Nat) {r : RState} {v acc' : Nat} {r' : RState}
       exact (lpost_tReport inp (cls := .ioverflow) (Q := fun _ => False)).h r1 _ _ h3)
   · rename_i hle
     cases h2
+    rw [Site.accNext_eq _ _ hle, Site.accValue_eq _ _ hle]
     refine ⟨rfl, ?_⟩
-    have : ¬ ((acc : Int) > (intMax : Int) - (v : Int)) := hle
+    have : ¬ ((acc : Int) > (intMax : Int) - (v0 : Int)) := hle
     omega
 
 theorem readCommonExprs_spec (h : Header) : LPost (readCommonExprs inp h)
@@ -82,6 +84,7 @@ theorem readCommonExprs_spec (h : Header) : LPost (readCommonExprs inp h)
   have s3 := tReadUIntAcc_spec inp _ e3
   have s4 := tReadUIntAcc_spec inp _ e4
   have s5 := tReadUIntAcc_spec inp _ e5
+  rw [Site.accInit_eq] at s1
   refine ⟨rfl, ?_, rfl, rfl⟩
   simp only [Header.num_vars_and_exprs, Header.num_common_exprs]
   omega
